@@ -318,6 +318,7 @@ void SCPI_Init(scpi_t * context,
     context->buffer.data = input_buffer;
     context->buffer.length = input_buffer_length;
     context->buffer.position = 0;
+    context->first_output = TRUE;
     SCPI_ErrorInit(context, error_queue_data, error_queue_size);
 }
 
